@@ -26,6 +26,7 @@ import Martian.LexerLR
 import Martian.LexerLRCheck
 import Martian.LexerLRGen
 import Proofs.LexerLR
+import Martian.LexerLRSem
 import Martian.Tokenizer
 import Proofs.Tokenizer
 import Gen.Facts
@@ -536,6 +537,15 @@ theorem front_end_total (fail : Nat → Bool) (src : Martian.Lexer.Bytes) :
   have := lr_driver_total fail (tokenIds src)
   simpa [parseSource, tokenIds] using this
 
+/-- Regenerated obligation for the semantic values of the value-expression
+sub-grammar (`parseLR`, Martian/LexerLRSem.lean; used by Props/C09Tie.lean):
+every modelled action is found, by its text, among the actions of grammar.go
+now, and no two productions with different modelled actions share a text.  A
+changed action body is no longer recognised and breaks this. -/
+theorem lr_value_actions_recognised :
+    (semTable.all fun p => Gen.mmProdBody.any fun q => q.2 == p.1) = true ∧
+    (semTable.all fun p => semTable.all fun q => p.1 != q.1 || p.2 == q.2) = true := by decide +kernel
+
 end lr
 
 /-- The regenerated facts these theorems are stated against were really found
@@ -552,7 +562,8 @@ theorem facts_extracted :
     Gen.mmTok2_extracted = true ∧ Gen.mmTok3_extracted = true ∧ Gen.mmLast_extracted = true ∧
     Gen.mmPrivate_extracted = true ∧ Gen.mmFlag_extracted = true ∧ Gen.mmErrCode_extracted = true ∧
     Gen.mmEofCode_extracted = true ∧ Gen.mmNToknames_extracted = true ∧ Gen.mmNErrorMessages_extracted = true ∧
-    Gen.mmFailProds_extracted = true ∧ Gen.mmPred_extracted = true ∧ Gen.mmRank_extracted = true := by decide
+    Gen.mmFailProds_extracted = true ∧ Gen.mmPred_extracted = true ∧ Gen.mmRank_extracted = true ∧
+    Gen.mmProdBody_extracted = true := by decide
 
 /-! ### definitional unfoldings (documentation of the model, not guarantees) -/
 
